@@ -269,11 +269,79 @@ fn long_runs(check: &Check) {
     });
 }
 
+/// Large frames: uniform (extremely compressible) and textured, coded with maximal replicate runs
+/// and with maximal literal runs; the decoder's plausibility bound between decoded size and
+/// encoded length only matters at this scale.
+fn large(check: &Check) {
+    // (name, rows, cols, bits, spp)
+    let shapes: [(&str, u16, u16, u16, u16); 5] = [
+        ("mono8-64KiB", 256, 256, 8, 1),
+        ("mono8-513KiB", 513, 1024, 8, 1),
+        ("mono8-1MiB", 1024, 1024, 8, 1),
+        ("mono16-512x512", 512, 512, 16, 1),
+        ("rgb8-512x400", 400, 512, 8, 3),
+    ];
+    // frame contents per object: one blank, one textured, blank + textured, blank + blank
+    let frame_lists: [&[&str]; 4] = [&["blank"], &["textured"], &["blank", "textured"], &["blank", "blank"]];
+    let codings = ["replicate-128", "literal-128", "canonical-127"];
+    let mut units = vec![];
+    for sh in shapes {
+        for fl in frame_lists {
+            for c in codings {
+                units.push((sh, fl, c));
+            }
+        }
+    }
+    check.extra("large_objects", json!(units.len()));
+    check.par_range(units.len() as u64, |l, i| {
+        let ((name, rows, cols, bits, spp), fl, coding) = units[i as usize];
+        let bps = bits as usize / 8;
+        let fb = rows as usize * cols as usize * spp as usize * bps;
+        let mut data = Vec::with_capacity(fb * fl.len());
+        for (fi, kind) in fl.iter().enumerate() {
+            if *kind == "blank" {
+                // one constant sample value (both bytes differ for 16 bit)
+                for k in 0..fb {
+                    data.push(if bps == 2 && k % 2 == 1 { 0x80 } else { 0x01 + fi as u8 });
+                }
+            } else {
+                // rows of short runs and ramps: literal and replicate pieces of many lengths
+                for k in 0..fb {
+                    let px = k / (bps * spp as usize);
+                    data.push(if (px / 97) % 3 == 0 { (px / 97) as u8 } else { (px * 31 + k % (bps * spp as usize) * 7) as u8 });
+                }
+            }
+        }
+        let img = Img::new(rows, cols, fl.len() as u32, bits, spp, data);
+        let r = RleImage::new(&img);
+        let special: Vec<((usize, usize), PlaneCoding)> = r
+            .planes
+            .iter()
+            .enumerate()
+            .flat_map(|(fi, fr)| {
+                fr.iter().enumerate().map(move |(pi, p)| {
+                    let pieces = match coding {
+                        "replicate-128" => canonical(p, 128),
+                        "canonical-127" => canonical(p, 127),
+                        _ => all_literal(p.len(), 128, 0),
+                    };
+                    ((fi, pi), PlaneCoding { pieces, noops: vec![] })
+                })
+            })
+            .collect();
+        let frags = r.fragments(&special);
+        let class = merge(&img_class(&img), json!({"family": "large", "shape": name, "frames": fl.join("+"), "coding": coding}));
+        let ratio = img.data.len() as f64 / frags.iter().map(|f| f.len()).sum::<usize>() as f64;
+        run_case(l, &format!("large/{name}/{}/{coding}", fl.join("+")), &class, &img, Ok(rle_object(&img, &frags, true, img.planar)), &format!("{coding}, decoded/encoded = {ratio:.1}"));
+    });
+}
+
 fn main() {
     let check = Check::from_args("C20", Level::Exploration);
-    check.set_rule("tiny family: every image of the C19 universe (<= 4 samples quick, <= 6 thorough; 8|16 bit; 1|3 samples; 1-3 frames) encoded by the vx-ref Annex G encoder: canonical coding x {offset table, empty table, read from a vx-ref file, planar attribute 1}, then every PackBits segmentation (all compositions x literal|replicate for equal pieces) of each byte plane in turn x no-op placements (all subsets of boundaries when <= 3 boundaries, else each single boundary and all), other planes canonical, and the full cross product over planes when it has <= 64 members; long-run family: 1 x n images, n in {127,128,129,255,256,257}, 8|16 bit, 1|3 samples, patterns equal/distinct/half, 8 chunkings x no-ops everywhere; a case is distinct by id; non-trivial = an RLE object was built and decoded");
+    check.set_rule("tiny family: every image of the C19 universe (<= 4 samples quick, <= 6 thorough; 8|16 bit; 1|3 samples; 1-3 frames) encoded by the vx-ref Annex G encoder: canonical coding x {offset table, empty table, read from a vx-ref file, planar attribute 1}, then every PackBits segmentation (all compositions x literal|replicate for equal pieces) of each byte plane in turn x no-op placements (all subsets of boundaries when <= 3 boundaries, else each single boundary and all), other planes canonical, and the full cross product over planes when it has <= 64 members; long-run family: 1 x n images, n in {127,128,129,255,256,257}, 8|16 bit, 1|3 samples, patterns equal/distinct/half, 8 chunkings x no-ops everywhere; large family: 5 shapes (8-bit 64 KiB, 513 KiB, 1 MiB; 16-bit 512x512; RGB 512x400) x frames {blank, textured, blank+textured, blank+blank} x coding {maximal replicate runs of 128, maximal literal runs of 128, canonical cut at 127}, whole-object and per-frame decode; a case is distinct by id; non-trivial = an RLE object was built and decoded");
     check.assume("vx-ref RLE encoder (written from PS3.5 Annex G, self-tested against its own reference decoder) is the trusted base; expected output is the original samples little-endian and pixel-interleaved");
     tiny(&check);
     long_runs(&check);
+    large(&check);
     check.finish();
 }
